@@ -144,6 +144,47 @@ fn directed(cfg: &Cfg) {
             );
         }
     }
+    // "exactly the number of files the request prescribes": every dispatched request kind with 0..=3
+    // attached descriptors; a count other than the prescribed one must be rejected without a
+    // handler invocation. The three ring-descriptor messages are tried in both forms (index with
+    // and without the no-descriptor flag 0x100).
+    let mut vr = Rng::new(0xc05f);
+    let mut kinds: Vec<(String, u32, Vec<u8>, usize)> = Vec::new();
+    for op in crate::c04::full_ops(&mut vr) {
+        if op.method().is_none() {
+            continue;
+        }
+        let (body, n) = op.wire();
+        kinds.push((op.name().to_string(), op.code(), body, n));
+    }
+    for code in [spec::fe::SET_VRING_KICK, spec::fe::SET_VRING_CALL, spec::fe::SET_VRING_ERR] {
+        kinds.push((format!("{}(nofd)", spec::fe::name(code).to_lowercase()), code, spec::p_u64(0x101), 0));
+    }
+    for (name, code, body, want) in kinds {
+        for k in 0..=3usize {
+            if k == want {
+                continue;
+            }
+            let (peer, mut srv, be) = util::raw_server(util::full_script());
+            util::raw_negotiate(&peer, &mut srv, spec::VIRTIO_F_PROTOCOL_FEATURES | 1, ops::ALL_PF);
+            be.lock().unwrap().log.clear();
+            let files: Vec<std::fs::File> = (0..k).map(|_| common::sys::memfd("cnt", 4096)).collect();
+            let fds: Vec<i32> = files.iter().map(|f| f.as_raw_fd()).collect();
+            common::sys::send_all(peer.as_raw_fd(), &spec::msg(code, 1, &body), &fds).expect("send");
+            let res = util::catch(|| srv.handle_request());
+            report::eval(1);
+            report::count("directed.file_counts", 1);
+            report::distinct_str(&format!("directed:files:{name}:{k}"));
+            let g = be.lock().unwrap();
+            if !matches!(res, Ok(Err(_))) || !g.log.is_empty() {
+                report::violation(
+                    &format!("C05:directed:{name}:wrong-file-count-accepted:{k}-instead-of-{want}"),
+                    jo! {"request" => name.as_str(), "files_attached" => k, "files_prescribed" => want, "result" => format!("{:?}", res.as_ref().map_err(|p| p.msg.clone())), "handler_log" => g.log.iter().map(|c| c.j()).collect::<Vec<J>>()},
+                    cfg.replay("directed"),
+                );
+            }
+        }
+    }
     let _ = FeOp::GetFeatures;
     let _ = Script::default();
 }
